@@ -251,6 +251,21 @@ class Interp:
             if fname.startswith("_"):
                 return None
             raise PyRaise("ValidationError", node, f"{cls.name}: field '{fname}' is required")
+        if isinstance(dflt, ast.Call) and ast.unparse(dflt.func).endswith("PrivateAttr"):
+            d = dflt.args[0] if dflt.args else None
+            fac = None
+            for kw in dflt.keywords:
+                if kw.arg == "default":
+                    d = kw.value
+                if kw.arg == "default_factory":
+                    fac = kw.value
+            fr0 = Frame({}, self.p.modules[owner.module], owner, None)
+            if fac is not None:
+                return self.call(self.eval(fac, fr0), [], {})
+            if d is None:
+                return None
+            v0 = self.eval(d, fr0)
+            return _copy.copy(v0) if isinstance(v0, (list, dict, set)) else v0
         if isinstance(dflt, ast.Call) and ast.unparse(dflt.func).endswith("Field"):
             d = None
             if dflt.args:
@@ -437,7 +452,7 @@ class Interp:
             elif defaults[i] is not None:
                 if dfr is None:
                     dfr = Frame({}, self.p.modules[fn.module] if fn else None, fn.cls if fn else None, fn)
-                env[pn] = self.eval(defaults[i], dfr)
+                env[pn] = self.default_value(defaults[i], dfr)
             else:
                 raise PyRaise("TypeError", None, f"{name}() missing required argument '{pn}'")
         if a.vararg:
@@ -448,13 +463,20 @@ class Interp:
             elif kd is not None:
                 if dfr is None:
                     dfr = Frame({}, self.p.modules[fn.module] if fn else None, fn.cls if fn else None, fn)
-                env[ko.arg] = self.eval(kd, dfr)
+                env[ko.arg] = self.default_value(kd, dfr)
             else:
                 raise PyRaise("TypeError", None, f"{name}() missing keyword-only argument '{ko.arg}'")
         if a.kwarg:
             env[a.kwarg.arg] = dict(kwargs)
         elif kwargs:
             raise PyRaise("TypeError", None, f"{name}() got an unexpected keyword argument '{next(iter(kwargs))}'")
+
+    def default_value(self, node, fr):
+        """a default argument is evaluated ONCE (at definition time): a mutable default is shared between calls"""
+        c = self.__dict__.setdefault("_default_cache", {})
+        if id(node) not in c:
+            c[id(node)] = self.eval(node, fr)
+        return c[id(node)]
 
     def call_method(self, obj: Obj, name: str, *args, **kwargs):
         r = self.p.find_attr(obj.cls, name)
@@ -554,6 +576,18 @@ class Interp:
             raise PyRaise("AttributeError", node, f"'{type(v).__name__}' object has no attribute '{name}'")
         if v is None:
             raise PyRaise("AttributeError", node, f"'NoneType' object has no attribute '{name}'")
+        if isinstance(v, (NP.IdxArr, Mesh)):
+            if name in ("shape", "ndim"):
+                return getattr(v, name)
+            if name == "reshape" and isinstance(v, NP.IdxArr):
+                return v.reshape
+            if name == "size":
+                return len(v.positions)
+            if name == "astype":
+                return lambda t, **k: v
+            if name == "tolist":
+                return lambda: list(v.positions)
+            raise AnalysisAbort(f"index array attribute {name}")
         if isinstance(v, PyModel):
             try:
                 return getattr(v, name)
@@ -571,6 +605,10 @@ class Interp:
             return tuple(v.args)
         if isinstance(v, (ExcValue, PyRaise)) and name == "with_traceback":
             return lambda tb=None: v
+        if isinstance(v, (ExcValue, PyRaise)) and name in ("__traceback__", "__cause__", "__context__"):
+            return None
+        if isinstance(v, PyRaise) and name == "args":
+            return (v.msg,)
         if isinstance(v, BT) and name == "__name__":
             return v.name
         if isinstance(v, Opaque):
@@ -693,14 +731,23 @@ class Interp:
     def np_attr(self, name, node):
         I = self
         el = NP.elementwise
+        wo = NP.with_out
+
+        def recip(a, out=None, **k):
+            if isinstance(a, AArr) and a.dtype == "int":      # integer reciprocal is integer division
+                return wo(el("trunc", el("div", 1, a)), out)
+            return wo(el("div", 1, a), out)
         simple = {
-            "minimum": lambda a, b: el("minimum", a, b), "maximum": lambda a, b: el("maximum", a, b),
-            "abs": lambda a: el("abs", a), "absolute": lambda a: el("abs", a), "sign": lambda a: el("sign", a),
-            "sqrt": lambda a: el("sqrt", a), "exp": lambda a: el("exp", a), "log": lambda a: el("log", a),
-            "negative": lambda a: el("neg", a), "add": lambda a, b: el("add", a, b), "subtract": lambda a, b: el("sub", a, b),
-            "multiply": lambda a, b: el("mul", a, b), "divide": lambda a, b: el("div", a, b),
-            "true_divide": lambda a, b: el("div", a, b), "power": lambda a, b: el("pow", a, b),
-            "reciprocal": lambda a: el("div", 1, a), "square": lambda a: el("pow", a, 2),
+            "minimum": lambda a, b, out=None, **k: wo(el("minimum", a, b), out), "maximum": lambda a, b, out=None, **k: wo(el("maximum", a, b), out),
+            "abs": lambda a, out=None, **k: wo(el("abs", a), out), "absolute": lambda a, out=None, **k: wo(el("abs", a), out),
+            "sign": lambda a, out=None, **k: wo(el("sign", a), out),
+            "sqrt": lambda a, out=None, **k: wo(el("sqrt", a), out), "exp": lambda a, out=None, **k: wo(el("exp", a), out),
+            "log": lambda a, out=None, **k: wo(el("log", a), out),
+            "negative": lambda a, out=None, **k: wo(el("neg", a), out), "add": lambda a, b, out=None, **k: wo(el("add", a, b), out),
+            "subtract": lambda a, b, out=None, **k: wo(el("sub", a, b), out),
+            "multiply": lambda a, b, out=None, **k: wo(el("mul", a, b), out), "divide": lambda a, b, out=None, **k: wo(el("div", a, b), out),
+            "true_divide": lambda a, b, out=None, **k: wo(el("div", a, b), out), "power": lambda a, b, out=None, **k: wo(el("pow", a, b), out),
+            "reciprocal": recip, "square": lambda a, out=None, **k: wo(el("pow", a, 2), out),
             "isnan": lambda a: el("isnan", a), "isclose": lambda a, b, **k: el("isclose", a, b),
             "nan_to_num": lambda a, **k: el("nan_to_num", a), "where": lambda c, a, b: el("where", c, a, b),
             "clip": lambda a, lo, hi: el("clip", a, lo, hi), "isfinite": lambda a: el("isfinite", a),
@@ -761,6 +808,10 @@ class Interp:
                     return AArr((), NP.as_term(x), NP.Buf("np.array"))
                 if isinstance(x, ItemList):
                     return AArr((tuple(x),), ("in", "items", ((NP.universe(x[0]), ("v", NP.vkey(x))),)), NP.Buf("np.array(items)"))
+                if isinstance(x, (list, tuple)) and all(isinstance(p, int) and not isinstance(p, bool) for p in x):
+                    return NP.IdxArr(x)       # an integer array of positions (index array)
+                if isinstance(x, NP.IdxArr):
+                    return x
                 raise AnalysisAbort(f"np.{_n} of {I.tname(x)}")
             return array
         if name == "copy":
@@ -787,7 +838,7 @@ class Interp:
                 return r
             return prod
         if name == "cumsum":
-            return lambda a, axis=None, **kw: NP.cumsum(a, axis)
+            return lambda a, axis=None, out=None, **kw: NP.with_out(NP.cumsum(a, axis), out)
         if name == "transpose":
             return lambda a, axes=None: NP.transpose(a, axes)
         if name == "moveaxis":
@@ -862,6 +913,8 @@ class Interp:
                     return v.shape[0]
                 if isinstance(v, PyModel):
                     return len(v)
+                if isinstance(v, NP.IdxArr):
+                    return len(v.positions)
                 if isinstance(v, ItemList):
                     return TInt(len(v), src=tuple(v))
                 if isinstance(v, (SymScalar, int, float)) or v is None:
@@ -914,6 +967,8 @@ class Interp:
         if name == "next":
             def nxt(it, default=Ellipsis):
                 try:
+                    if isinstance(it, (list, tuple)):
+                        raise AnalysisAbort("next() of a list")
                     return next(it)
                 except StopIteration:
                     if default is Ellipsis:
@@ -967,6 +1022,23 @@ class Interp:
                     return NDARRAY
                 return I.builtin(type(v).__name__) if type(v).__name__ in ("int", "str", "float", "list", "tuple", "dict", "bool", "set") else BT(type(v).__name__, (type(v),), type(v))
             return ty
+        if name == "map":
+            return lambda f, *its: [I.call(f, list(xs), {}) for xs in zip(*[I.iterate(i) for i in its])]
+        if name == "filter":
+            return lambda f, it: [x for x in I.iterate(it) if (I.truth(I.call(f, [x], {})) if f is not None else I.truth(x))]
+        if name == "divmod":
+            def dm(a, b):
+                if isinstance(a, TInt) or isinstance(b, TInt):
+                    return (TInt(int(a) // int(b)), TInt(int(a) % int(b)))
+                return divmod(a, b)
+            return dm
+        if name == "round":
+            return lambda x, n=None: round(x) if n is None else round(x, n)
+        if name == "pow":
+            return lambda a, b: I.binop(ast.Pow(), a, b, None)
+        if name in ("ord", "chr", "id", "hash", "format", "bin", "hex"):
+            import builtins as _b
+            return getattr(_b, name)
         if name == "callable":
             return lambda v: isinstance(v, (Bound, ClsMethod, Closure, FuncInfo, ClassInfo)) or callable(v)
         if name == "print":
@@ -1018,7 +1090,7 @@ class Interp:
                 if isinstance(v, (int, float, SymScalar)):
                     return True
             elif x is NDARRAY:
-                if isinstance(v, (AArr, Mesh)):
+                if isinstance(v, (AArr, Mesh, NP.IdxArr)):
                     return True
             elif x is CALLABLE:
                 if isinstance(v, (Bound, ClsMethod, Closure, FuncInfo)):
@@ -1061,6 +1133,8 @@ class Interp:
         return str(v)
 
     def iterate(self, v):
+        if isinstance(v, NP.IdxArr):
+            return list(v.positions)
         if isinstance(v, PyModel):
             return list(iter(v))
         if isinstance(v, Obj):
@@ -1411,6 +1485,11 @@ class Interp:
         }
         if dotted in known:
             return known[dotted]
+        head, _, tail = dotted.partition(".")
+        if head in ("math", "operator", "functools", "itertools", "string", "textwrap", "re", "unicodedata"):
+            if not tail:
+                return ExtModule(head)
+            return self.ext_attr(ExtModule(head), tail, None)
         if dotted.startswith(("typing.", "pydantic.", "abc.")):
             return Marker(dotted)
         return ExtModule(dotted)
@@ -1786,7 +1865,8 @@ class Interp:
         self.comp(n.generators, fr, lambda f: out.append(self.eval(n.elt, f)))
         return out
 
-    e_GeneratorExp = e_ListComp
+    def e_GeneratorExp(self, n, fr):
+        return iter(self.e_ListComp(n, fr))       # consumed once, advanced by next()
 
     def e_SetComp(self, n, fr):
         out = set()
